@@ -179,6 +179,22 @@ class Builtins:
                         raise Raise(self.make_exc("TypeError", f"math.{attr}: must be real number"), self.I.where())
                     return attr == "isfinite"
                 return Builtin("math." + attr, fin)
+            if attr in ("floor", "ceil"):
+                def fl(a, k, attr=attr):
+                    v = a[0]
+                    if not is_num(v):
+                        raise Raise(self.make_exc("TypeError", f"math.{attr}: must be real number"), self.I.where())
+                    if not isinstance(v, SNum):
+                        import math
+                        return getattr(math, attr)(v)
+                    x = real_term(v)
+                    r = self.path.fresh(attr, sym.I)
+                    if attr == "floor":
+                        self.path.assume(z3.And(z3.ToReal(r) <= x, x < z3.ToReal(r) + 1))
+                    else:
+                        self.path.assume(z3.And(z3.ToReal(r) - 1 < x, x <= z3.ToReal(r)))
+                    return SNum(r, True)
+                return Builtin("math." + attr, fl)
             if attr == "lcm":
                 def lcm(a, k):
                     # lcm(m, n) * gcd(m, n) = m * n on positive ints (gcd as modelled below)
